@@ -73,6 +73,8 @@ theorem ctrl_fns : Gen.ctrlFns = [([38,5],1), ([38,2],3), ([48,5],1), ([48,2],3)
 theorem parsable_valid (t : Str) (h : SettingTxt.parsable t = true) : SettingTxt.valid t = true := by
   rw [parsable_eq, Bool.and_eq_true] at h; exact h.1
 
+example : SettingTxt.parsable "38;5;7".toList = true := by decide +kernel
+
 -- non-vacuity of both directions
 example : Grammar.group "38;2;1;2;3".toList := (parsable_iff _).1 (by decide +kernel)
 example : Grammar.group " 1 ".toList := (parsable_iff _).1 (by decide +kernel)
@@ -146,6 +148,9 @@ theorem rgb_helper_parsable (comp r g b : Nat) (hc : comp < 4) (hr : r ≤ 255) 
   have : comp = 0 ∨ comp = 1 ∨ comp = 2 ∨ comp = 3 := by omega
   rcases this with rfl | rfl | rfl | rfl <;>
     simp [Scrub.colorSettings, e0, e1, e2, u1, u2, key]
+
+example : (2 : Nat) < 4 ∧ (255 : Nat) ≤ 255 ∧ (0 : Nat) ≤ 255 := by decide
+example : Scrub.colorSettings 2 true [255, 0, 7] = ["4".toList, "58;2;255;0;7".toList] := by decide +kernel
 
 /-- `AnsiFormat.color256(n, component)` with `n ≤ 255` -/
 theorem color256_helper_parsable (comp n : Nat) (hc : comp < 4) (hn : n ≤ 255) :
